@@ -33,6 +33,8 @@ func newScript() *Script {
 		"(declare-sort F32 0)",
 		"(declare-sort Opaque 0)",
 		"(define-fun nilref () Ref (mkref 0 0))",
+		"(declare-fun elemref (Slice Int) Ref)",
+		"(assert (forall ((s Slice) (k Int)) (! (= (elemref s k) (mkref (sobj s) (+ (soff s) k))) :pattern ((elemref s k)))))",
 		"(define-fun nilslice () Slice (mkslice 0 0 0 0))",
 		"(define-fun niliface () Iface (mkiface 0 0))",
 		"(declare-fun f64zero () F64)",
